@@ -64,4 +64,23 @@ PROPS['C07'] = dict(
     technique='contract-based deductive verification + data-race-freedom obligations (two-iteration non-interference) discharged by z3',
 )
 
+PROPS['C09'] = dict(
+    modules=['contracts.ed_c', 'contracts.bounds_c', 'contracts.bounds_py'],
+    contracts=['dd_ed.c::euclidean_distance', 'dd_ed.c::euclidean_distance_euclidean',
+               'dd_ed.c::euclidean_distance_ndim', 'dd_ed.c::euclidean_distance_ndim_euclidean',
+               'dd_dtw.c::ub_euclidean', 'dd_dtw.c::ub_euclidean_euclidean', 'dd_dtw.c::ub_euclidean_ndim',
+               'dd_dtw.c::ub_euclidean_ndim_euclidean', 'dd_dtw.c::lb_keogh', 'dd_dtw.c::lb_keogh_euclidean',
+               'ed.distance', 'dtw.ub_euclidean', 'dtw.lb_keogh', 'dtw.lb_keogh#euclid'],
+    lemmas=[],
+    level='proof',
+    level_text='Code = spec, unbounded: every Euclidean-bound routine (C, uni- and multivariate, both inner distances) '
+               'returns exactly the padded Euclidean sum of the property statement, in the order the loops add it '
+               '(bit-exact for IEEE doubles at level U).',
+    level_note='Trusted: dvc C semantics (A2), libm sqrt/fabs as functions (A3), pow(d,2)==d*d (A3), solvers (A7). '
+               'The sandwich inequalities LB <= DTW <= ED are lemmas over the spec (see DESIGN, not yet machine-checked).',
+    trusted_base=['A2: C semantics as encoded by dvc', 'A3: libm', A7],
+    assumptions=['A2', 'A3 (libm)', A7],
+    not_decided=['LB_Keogh <= DTW and DTW <= ED as inequalities over the specification (Lean lemmas L4/L5 pending)'],
+)
+
 NOT_APPLICABLE = {p: 'not decided yet: machinery for this property is still being built (see DESIGN.md §9 order of work)' for p in ['C01', 'C02', 'C03', 'C04', 'C05', 'C06', 'C07', 'C08', 'C09', 'C10', 'C11', 'C12', 'C13', 'C14', 'C15', 'C16', 'C17', 'C18', 'C19', 'C20'] if p not in PROPS}
